@@ -18,6 +18,7 @@ import (
 	"github.com/pentops/j5/gen/j5/client/v1/client_j5pb"
 	"github.com/pentops/j5/gen/j5/schema/v1/schema_j5pb"
 	"github.com/pentops/j5/gen/j5/sourcedef/v1/sourcedef_j5pb"
+	"github.com/pentops/j5/lib/j5schema"
 	"google.golang.org/protobuf/proto"
 	"google.golang.org/protobuf/reflect/protoreflect"
 	"google.golang.org/protobuf/types/descriptorpb"
@@ -801,4 +802,80 @@ func HarnessImportSpellings() {
 		want = "deep/other/v1/foreign.proto"
 	}
 	verifAssert(verifHasDep(files[0], want), "imported-type-file-is-a-dependency")
+}
+
+// ---------- C04: a declared enum read back from the compiled descriptor ----------
+
+// HarnessEnumReadBack: an enum (zero option implicit or declared explicitly;
+// descriptions and info on any option incl. the zero one; info fields or not)
+// compiled, viewed through fakedesc and reflected by the real schema cache
+// through a message that refers to it, exports to the declared enum: name,
+// prefix, every option with its number, description and info, and the info fields.
+func HarnessEnumReadBack() {
+	explicitZero := ndBool("explicitZeroOption")
+	withInfo := ndBool("optionInfo")
+	withFields := ndBool("infoFields")
+	withDesc := ndBool("descriptions")
+	k := ndIntRange("options", 1, 2)
+	opts := []*schema_j5pb.Enum_Option{}
+	if explicitZero {
+		opts = append(opts, &schema_j5pb.Enum_Option{Name: "UNSPECIFIED"})
+	}
+	for i := 0; i < k; i++ {
+		opts = append(opts, &schema_j5pb.Enum_Option{Name: []string{"ONE", "TWO"}[i]})
+	}
+	for i, o := range opts {
+		if withInfo {
+			o.Info = map[string]string{"colour": []string{"grey", "red", "blue"}[i]}
+		}
+		if withDesc {
+			o.Description = []string{"nothing chosen", "first", "second"}[i]
+		}
+	}
+	enum := &schema_j5pb.Enum{Name: "Kind", Options: opts}
+	if withFields {
+		enum.Info = []*schema_j5pb.Enum_OptionInfoField{{Name: "colour", Label: "Colour"}}
+	}
+	holder := verifObjectElement("Holder", []*schema_j5pb.ObjectProperty{{Name: "kind", Schema: &schema_j5pb.Field{Type: &schema_j5pb.Field_Enum{Enum: &schema_j5pb.EnumField{
+		Schema: &schema_j5pb.EnumField_Ref{Ref: &schema_j5pb.Ref{Schema: "Kind"}}}}}}})
+	files, err := verifCompile(verifSourceFile(holder, &sourcedef_j5pb.RootElement{Type: &sourcedef_j5pb.RootElement_Enum{Enum: enum}}))
+	verifAssert(err == nil, "enum-compiles")
+	if err != nil {
+		return
+	}
+	u := verifUniverse(files)
+	cache := j5schema.NewSchemaCache()
+	if _, err := cache.Schema(u.Message("a.v1.Holder")); err != nil {
+		verifFail("holder-reflects")
+		return
+	}
+	ref := j5schema.VerifCachePackages(cache)["a.v1"].Schemas["Kind"]
+	if ref == nil || ref.To == nil {
+		verifFail("enum-reflected")
+		return
+	}
+	got := ref.To.ToJ5Root().GetEnum()
+	if got == nil {
+		verifFail("enum-exports-as-enum")
+		return
+	}
+	// the declared enum with the defaults the language defines made explicit
+	want := []*schema_j5pb.Enum_Option{}
+	if !explicitZero {
+		want = append(want, &schema_j5pb.Enum_Option{Name: "UNSPECIFIED", Number: 0})
+	}
+	for _, o := range opts {
+		want = append(want, &schema_j5pb.Enum_Option{Name: o.Name, Number: int32(len(want)), Description: o.Description, Info: o.Info})
+	}
+	verifAssert(got.Name == "Kind" && got.Prefix == "KIND_", "enum-name-and-default-prefix")
+	verifAssert(len(got.Options) == len(want), "option-count")
+	if len(got.Options) == len(want) {
+		for i := range want {
+			g, w := got.Options[i], want[i]
+			verifAssert(g.Name == w.Name && g.Number == w.Number, "option-name-and-number")
+			verifAssert(g.Description == w.Description, "option-description")
+			verifAssert(len(g.Info) == len(w.Info) && (len(w.Info) == 0 || g.Info["colour"] == w.Info["colour"]), "option-info")
+		}
+	}
+	verifAssert(len(got.Info) == len(enum.Info) && (len(enum.Info) == 0 || (got.Info[0].Name == "colour" && got.Info[0].Label == "Colour")), "info-fields")
 }
